@@ -7,6 +7,7 @@ import (
 	"strings"
 
 	sdkmath "cosmossdk.io/math"
+	sdk "github.com/cosmos/cosmos-sdk/types"
 	"github.com/ethereum/go-ethereum/common"
 	ethtypes "github.com/ethereum/go-ethereum/core/types"
 	"github.com/ethereum/go-ethereum/core/vm"
@@ -59,8 +60,17 @@ func Ledger(run *vh.Run, which string) {
 
 func ledgerWorld(run *vh.Run, which, label string, wi int, v ledgerCase, nBlocks int) {
 	r := run.RNG("ledger", wi)
-	w := vh.NewWorld(r, vh.WorldOpts{Chain: vh.Config{Seed: r.U64(), NumVals: 1 + wi%3, MaxGas: v.MaxGas, BaseFee: big.NewInt(v.BaseFee)}, NumEOA: 6,
-		Prog: vh.ProgOpts{MaxLen: 7, Depth: 2}})
+	// addresses that hold coins (two denominations) in the genesis bank state but have no x/auth account record
+	var orphans []common.Address
+	var orphanAccs []vh.GenAccount
+	for i := 0; i < 4; i++ {
+		a := common.BytesToAddress(r.Bytes(20))
+		orphans = append(orphans, a)
+		orphanAccs = append(orphanAccs, vh.GenAccount{Addr: a, NoAuthAccount: true,
+			Coins: sdk.NewCoins(sdk.NewCoin(vh.Denom, sdkmath.NewInt(int64(1+r.Intn(1000))*1e12)), sdk.NewCoin(vh.SecondDenom, sdkmath.NewInt(int64(1+r.Intn(1_000_000)))))})
+	}
+	w := vh.NewWorld(r, vh.WorldOpts{Chain: vh.Config{Seed: r.U64(), NumVals: 1 + wi%3, MaxGas: v.MaxGas, BaseFee: big.NewInt(v.BaseFee), Accounts: orphanAccs}, NumEOA: 6,
+		Prog: vh.ProgOpts{MaxLen: 7, Depth: 2}, ExtraPool: orphans})
 	defer w.C.Cleanup()
 	// half of the EOAs never receive value from generated programs (C05 senders): keep them out of the pool
 	pure := w.EOAs[:3]
